@@ -56,8 +56,8 @@ def interp (M : SModel) : Interp SState (Array Float) where
   lags := M.lags
   leads := M.leads
   check u t := (M.check.map fun i => (u[i]?.getD #[])[pos M.n t]?.getD 0.0).toArray
-  allFinite v := v.all Float.isFinite
-  close cur prev := (cur.zip prev).all fun (c, p) => Float.abs (c - p) < M.tol
+  allFinite := allFiniteBy Float.isFinite
+  close := closeBy fun c p => Float.abs (c - p) < M.tol
   zeroNF v := v.map fun x => if x.isFinite then x else 0.0
   copyOffset u t off :=
     u.map fun row => row.set! (pos M.n t) (row[pos M.n (t + off)]?.getD 0.0)
